@@ -37,6 +37,12 @@ FORMS = [
     ("multiline-triple-dq-containing-triple-sq", ['"""it\'s \'\'\'', '  x"""'], None),
     ("multiline-triple-containing-backslash-eol", ['"""p \\\\', '  q"""'], None),
     ("backslash-newline-inside-string", ["'ab\\", "  cd'"], None),
+    # an ordinary string continued by backslashes over 3 / 4 physical lines whose middle line(s) start with '#'
+    # (string content, not comments); the last line starts with whitespace deeper than any margin / with a TAB
+    ("backslash-continued-sq-string-3-lines-hash-line", ["'a\\", "# b\\", "             c'"], None),
+    ("backslash-continued-dq-string-3-lines-hash-line", ['"a\\', "# b\\", '\t c"'], None),
+    ("backslash-continued-sq-string-4-lines-hash-lines", ["'a\\", "# b\\", "#c\\", "             d'"], None),
+    ("backslash-continued-dq-string-4-lines-hash-lines", ['"a\\', "# b\\", "  # c\\", '\t    d"'], None),
     ("comment-with-quotes", ["'v'"], "# it's \"q\""),
     ("comment-with-triple-sq", ["'v'"], "# '''"),
     ("comment-with-triple-dq", ["'v'"], '# """'),
@@ -176,8 +182,9 @@ class Printer:
         elif k == "while":
             self.ctr += 1
             w = "w%d" % (self.ctr % 4)
-            A((level, "while len(%s) < 2:" % w, False))
-            self.body(s, 0, level + 1, lead="%s += 'w'" % w)
+            # the condition itself advances the counter: the loop ends even if the body is mis-indented away
+            A((level, "while len(%s.append(0) or %s) < 3:" % (w, w), False))
+            self.body(s, 0, level + 1, lead="%s = str(len(%s))" % (self.v(), w))
         elif k == "try":
             A((level, "try:", False))
             self.body(s, 0, level + 1)
@@ -212,7 +219,7 @@ def render_lines(lines, margin, unit):
     return out
 
 
-PREAMBLE = "v0 = ''; v1 = ''; v2 = ''; w0 = ''; w1 = ''; w2 = ''; w3 = ''; n9 = 5"
+PREAMBLE = "v0 = ''; v1 = ''; v2 = ''; w0 = []; w1 = []; w2 = []; w3 = []; n9 = 5"
 OBSERVE = "N19((v0, v1, v2))"
 
 MARGINS = [" " * i for i in range(13)] + ["\t", "\t    "]
